@@ -323,7 +323,7 @@ def run(index: RepoIndex, rep) -> None:
             b = eff.bind_args(t0, e.node)
             a = b.get('rng')
             want = 'self._rng' if 'rng' not in w.params else 'rng'
-            ok = a is not None and src(a) == want
+            ok = a is not None and (src(a) == want or src(w.expand(a)) == want)
             fam = '' if len(targets) == 1 else f' (family of {len(targets)})'
             rep.check(ok, 'C02.R3', f.relpath, f.short, e.line, src(e.node)[:120],
                       f'call to {t0.short}{fam}, which may draw, passes rng='
@@ -362,25 +362,26 @@ def run(index: RepoIndex, rep) -> None:
         m = gw.methods.get(mname)
         if m is None:
             raise AnalysisError(f'anchor vanished: GridWorld.{mname}')
-        ww = walk_function(m.node)
+        from ..view import view
+        ww = view(index, m)[1]
         calls = [e for e in ww.events if e.kind == 'call' and src(e.node.func) == attr]
-        ok = len(calls) == 1 and {k.arg: src(k.value) for k in calls[0].node.keywords}.get(
-            'rng') == 'self._rng'
+        ok = len(calls) == 1 and {k.arg: src(ww.expand(k.value))
+                                  for k in calls[0].node.keywords}.get('rng') == 'self._rng'
         rep.check(ok, 'C02.R4', GW, f'GridWorld.{mname}', m.node.lineno,
                   '; '.join(src(c.node) for c in calls),
                   f'{mname} does not call {attr}(.., rng=self._rng) exactly once',
                   f'{mname} threads rng')
     m = gw.methods.get('functional_step')
-    ww = walk_function(m.node)
-    calls = [e for e in ww.events if e.kind == 'call'
-             and src(e.node.func) == 'transition_with_copy']
-    ok = len(calls) == 1 and {k.arg: src(k.value) for k in calls[0].node.keywords}.get(
-        'rng') == 'self._rng' and calls[0].node.args and \
-        src(calls[0].node.args[0]) == 'self._transition_function'
+    from ..view import step_wiring
+    sw = step_wiring(index)
+    ww = sw['walk']
+    calls = sw['tcalls']
+    ok = len(calls) == 1 and {k.arg: src(ww.expand(k.value))
+                              for k in calls[0].node.keywords}.get('rng') == 'self._rng'
     rep.check(ok, 'C02.R4', GW, 'GridWorld.functional_step', m.node.lineno,
               '; '.join(src(c.node) for c in calls),
-              'functional_step does not run transition_with_copy(self._transition_function, '
-              '.., rng=self._rng) exactly once', 'functional_step threads rng')
+              'functional_step does not run the transition function with rng=self._rng '
+              'exactly once', 'functional_step threads rng')
     for role in ('reward', 'terminating'):
         fam = index.registries.get(role, {})
         drawers = [n for n, f in fam.items() if rm.sites.get(eff.qual(f))]
@@ -392,7 +393,7 @@ def run(index: RepoIndex, rep) -> None:
     set_order(index, rep, 'C02.R5', eff)
 
     # ---------------------------------------------------------------- R6
-    debug_gates(index, rep, 'C02.R6', eff)
+    debug_gates(index, rep, 'C02.R6', eff, rm)
 
     # ---------------------------------------------------------------- R7
     allowed_global = {'_gv_rng', '_gv_debug'}
@@ -480,46 +481,139 @@ def set_order(index: RepoIndex, rep, rule: str, eff: Effects) -> None:
                           f'different processes')
 
 
-def debug_gates(index: RepoIndex, rep, rule: str, eff: Effects) -> None:
+def _truth(f, asg: Dict[str, bool]) -> bool:
+    k = f[0]
+    if k == 'true' or k == 'iter':
+        return True
+    if k == 'false':
+        return False
+    if k == 'not':
+        return not _truth(f[1], asg)
+    if k == 'and':
+        return all(_truth(x, asg) for x in f[1:])
+    if k == 'or':
+        return any(_truth(x, asg) for x in f[1:])
+    return asg[show(f)]
+
+
+def _atom_keys(f, out: Set[str]) -> None:
+    k = f[0]
+    if k in ('atom', 'raises'):
+        out.add(show(f))
+    elif k == 'not':
+        _atom_keys(f[1], out)
+    elif k in ('and', 'or'):
+        for x in f[1:]:
+            _atom_keys(x, out)
+
+
+def debug_gates(index: RepoIndex, rep, rule: str, eff: Effects, rm=None) -> None:
+    """the debug flag only adds raises: for every valuation of the other conditions, a run
+    with the flag on either raises or performs exactly the stores / returns / impure calls
+    of the run with the flag off (decided on the guarded events of each function that reads
+    gv_debug(), private helpers inlined, locals expanded)"""
+    import itertools
+    from ..view import view
     n = 0
-    for f in index.all_functions(PKG):
+    DEBUG = 'gv_debug()'
+    funcs = list(index.all_functions(PKG))
+    direct = {f.name for f in funcs if 'gv_debug' in {x.id for x in ast.walk(f.node)
+                                                      if isinstance(x, ast.Name)}}
+    for f in funcs:
         if f.relpath == DBG and f.name in ('gv_debug', 'reset_gv_debug'):
             continue
-        gated: Set[int] = set()
-        for node in ast.walk(f.node):
-            if isinstance(node, ast.If) and 'gv_debug()' in src(node.test):
-                n += 1
-                for x in ast.walk(node.test):
-                    gated.add(id(x))
-                body_ok = all(isinstance(s, ast.Raise) for s in node.body) and not node.orelse
-                # other conjuncts: pure calls only
-                pure = True
-                why = ''
-                for c in ast.walk(node.test):
-                    if isinstance(c, ast.Call) and src(c.func) != 'gv_debug':
-                        q = eff.qual(f)
-                        for t in eff.resolve(q, c):
-                            ts = eff.summary(t)
-                            if ts.mut_params - {'self'} or \
-                                    (ts.global_writes - {'_gv_debug', '_gv_rng'}):
-                                pure = False
-                                why = f'{t.short} mutates {sorted(ts.mut_params)}'
-                            from .c02 import RngModel  # noqa
-                        if isinstance(c.func, ast.Attribute) and c.func.attr in RNG_METHODS \
-                                and 'rng' in src(c.func.value):
-                            pure = False
-                            why = 'draws from a generator'
-                rep.check(body_ok and pure, rule, f.relpath, f.short, node.lineno,
-                          f'if {src(node.test)[:80]}: ...',
-                          'a gv_debug() gate ' + ('has a body that does more than raise / has an '
-                          'else branch' if not body_ok else f'evaluates an impure check ({why})')
-                          + ': runs with the flag on and off would differ',
-                          f'{f.short}: debug gate raise-only')
-        for node in ast.walk(f.node):
-            if isinstance(node, ast.Call) and src(node.func) == 'gv_debug' and \
-                    id(node) not in gated:
-                rep.violation(rule, f.relpath, f.short, node.lineno, 'gv_debug()',
-                              'gv_debug() is read outside the test of a raise-only `if`: '
-                              'behaviour depends on the debug flag')
+        mentioned = {x.id for x in ast.walk(f.node) if isinstance(x, ast.Name)} | \
+            {x.attr for x in ast.walk(f.node) if isinstance(x, ast.Attribute)}
+        if not (mentioned & (direct | {'gv_debug'})):
+            continue
+        node, w, _ = view(index, f)
+        reads = [x for x in ast.walk(node) if isinstance(x, ast.Call)
+                 and src(x.func) == 'gv_debug']
+        if not reads:
+            continue
+        n += 1
+        q = eff.qual(f)
+
+        def impure(c: ast.Call) -> str:
+            for t in (eff.resolve(q, c) if q in eff.funcs else []):
+                ts = eff.summary(t)
+                if ts.mut_params - {'self'} or (ts.global_writes - {'_gv_debug', '_gv_rng'}):
+                    return f'{t.short} mutates {sorted(ts.mut_params)}'
+                if rm is not None and rm.may_draw(t, None, f):
+                    return f'{t.short} may draw random numbers'
+            if isinstance(c.func, ast.Attribute) and c.func.attr in RNG_METHODS \
+                    and 'rng' in src(c.func.value):
+                return 'draws from a generator'
+            return ''
+        evs = []
+        for e in w.events:
+            g = w.expand_formula(strip_iter(e.guard))
+            if e.kind in ('store', 'attrstore', 'augstore', 'delete'):
+                evs.append(('effect', f'{src(e.target)} <- '
+                            f'{src(e.value) if e.value is not None else ""}', g, e))
+            elif e.kind == 'return':
+                evs.append(('effect', f'return {src(w.expand(e.value)) if e.value is not None else None}',
+                            g, e))
+            elif e.kind == 'raise':
+                evs.append(('raise', src(e.stmt), g, e))
+            elif e.kind == 'call' and src(e.node.func) != 'gv_debug':
+                why = impure(e.node)
+                if why:
+                    evs.append(('effect', f'call {src(e.node)} ({why})', g, e))
+        keys: Set[str] = set()
+        for _, _, g, _ in evs:
+            _atom_keys(g, keys)
+        # the flag must only be read as a condition
+        cond_nodes: Set[int] = set()
+        for x in ast.walk(node):
+            if isinstance(x, (ast.If, ast.While, ast.IfExp, ast.Assert)):
+                for y in ast.walk(x.test):
+                    cond_nodes.add(id(y))
+        free_reads = [x for x in reads if id(x) not in cond_nodes]
+        for x in free_reads:
+            # `flag = gv_debug()` is fine when the local is only used as a condition
+            ok = False
+            for st in ast.walk(node):
+                if isinstance(st, ast.Assign) and st.value is x and len(st.targets) == 1 and \
+                        isinstance(st.targets[0], ast.Name):
+                    nm = st.targets[0].id
+                    loads = [y for y in ast.walk(node) if isinstance(y, ast.Name)
+                             and y.id == nm and isinstance(y.ctx, ast.Load)]
+                    ok = all(id(y) in cond_nodes for y in loads)
+            if not ok:
+                rep.violation(rule, f.relpath, f.short, x.lineno, 'gv_debug()',
+                              'gv_debug() is read outside a condition: behaviour depends on '
+                              'the debug flag')
+        others = sorted(keys - {DEBUG})
+        if DEBUG not in keys:
+            rep.holds(rule, f'{f.relpath}:{f.short}', 'debug flag read, no event depends on it')
+            continue
+        if len(others) > 14:
+            raise AnalysisError(f'{f.short}: {len(others)} conditions around gv_debug()')
+        bad = None
+        for vals in itertools.product((False, True), repeat=len(others)):
+            asg = dict(zip(others, vals))
+            res = {}
+            for d in (False, True):
+                asg[DEBUG] = d
+                fired = frozenset(t for k, t, g, _ in evs if k == 'effect' and _truth(g, asg))
+                raised = [t for k, t, g, _ in evs if k == 'raise' and _truth(g, asg)]
+                res[d] = (fired, raised)
+            if res[False][1] and not res[True][1]:
+                bad = (asg, f'`{res[False][1][0]}` is raised only with the flag off')
+            elif not res[True][1] and not res[False][1] and res[True][0] != res[False][0]:
+                diff = sorted(res[True][0] ^ res[False][0])
+                bad = (asg, f'`{diff[0][:80]}` happens with the flag '
+                            f'{"on" if diff[0] in res[True][0] else "off"} only')
+            if bad:
+                break
+        cond = ', '.join(f'{k}={v}' for k, v in sorted((bad[0] if bad else {}).items())
+                         if k != DEBUG)
+        rep.check(bad is None, rule, f.relpath, f.short, f.node.lineno,
+                  f'gv_debug() in {f.short}',
+                  'the debug flag changes more than whether a check raises: '
+                  + (f'{bad[1]} (when {cond})' if bad else '')
+                  + ': runs with the flag on and off would differ',
+                  f'{f.short}: debug gate raise-only')
     if n == 0:
         raise AnalysisError('no gv_debug() gate found in the package')
